@@ -153,8 +153,9 @@ def run(ctx):
             return e[0] == "place" and e[1][0] == l and len(e[1]) == 2 and e[1][1].get("f") == i
         ok = (tup_field(a0, nl, 0) or (a0[0] == "call" and False)) and tup_field(a1, nl, 1)
         if not ok:
-            # through named locals (minimum, maximum)
-            ok = L.named_source(ji, t["args"][0]) == "minimum" and L.named_source(ji, t["args"][1]) == "maximum"
+            # through the destructured locals: provenance by role, whatever they are called
+            r0, r1 = L.role(ji, t["args"][0]), L.role(ji, t["args"][1])
+            ok = r0.startswith("call:normalize_integer_bounds(") and r0.endswith(").0") and r1.startswith("call:normalize_integer_bounds(") and r1.endswith(").1")
         ctx.check(ok, "C08-R2", "json_int:arguments-in-order", "rx_int_range(minimum, maximum) receives the normalised pair in order",
                   "json_int passes (%s, %s) to rx_int_range" % (F.fmt_expr(a0), F.fmt_expr(a1)), site=ji.where(gen[0]))
     jn = ctx.body(JC + "::json_number")
